@@ -6,6 +6,8 @@
 #include <primesieve.h>
 #include "common.hpp"
 #include <cerrno>
+#include <vector>
+#include <algorithm>
 
 static std::string cpp_nth(int64_t n, uint64_t s) { try { return std::to_string(primesieve::nth_prime(n, s)); } catch (const std::exception&) { return "err"; } }
 static std::string c_nth(int64_t n, uint64_t s, int& e) { errno = 0; uint64_t v = primesieve_nth_prime(n, s); e = errno; return v == PRIMESIEVE_ERROR ? "err" : std::to_string(v); }
@@ -16,6 +18,20 @@ static std::string cpp_count(int k, uint64_t a, uint64_t b) {
 static std::string c_count(int k, uint64_t a, uint64_t b) {
   static cntfn f[6] = { primesieve_count_primes, primesieve_count_twins, primesieve_count_triplets, primesieve_count_quadruplets, primesieve_count_quintuplets, primesieve_count_sextuplets };
   uint64_t v = f[k - 1](a, b); return v == PRIMESIEVE_ERROR ? "err" : std::to_string(v); }
+
+// independent oracle for the top of the range: deterministic Miller-Rabin (bases 2..37), unverified,
+// used only to classify disagreements / as reference where a python sieve cannot reach
+static uint64_t mulmod(uint64_t a, uint64_t b, uint64_t m) { return (uint64_t) ((unsigned __int128) a * b % m); }
+static uint64_t powmod(uint64_t a, uint64_t e, uint64_t m) { uint64_t r = 1; a %= m; while (e) { if (e & 1) r = mulmod(r, a, m); a = mulmod(a, a, m); e >>= 1; } return r; }
+static bool mr_prime(uint64_t n) {
+  if (n < 2) return false;
+  static const uint64_t bs[12] = {2,3,5,7,11,13,17,19,23,29,31,37};
+  for (uint64_t p : bs) { if (n == p) return true; if (n % p == 0) return false; }
+  uint64_t d = n - 1; int r = 0; while ((d & 1) == 0) { d >>= 1; r++; }
+  for (uint64_t a : bs) { uint64_t x = powmod(a, d, n); if (x == 1 || x == n - 1) continue; bool ok = false;
+    for (int i = 1; i < r; i++) { x = mulmod(x, x, n); if (x == n - 1) { ok = true; break; } } if (!ok) return false; }
+  return true;
+}
 
 int main()
 {
@@ -34,6 +50,29 @@ int main()
       if (t.size() > 4) primesieve::set_num_threads(atoi(t[4].c_str()));
       if (t.size() > 5) primesieve::set_sieve_size(atoi(t[5].c_str()));
       std::cout << "cpp " << cpp_count(k, a, b) << " c " << c_count(k, a, b) << std::endl;
+    }
+    else if (t[0] == "PRINT") {      // PRINT binding k a b : library print functions write to stdout between markers
+      int k = atoi(t[2].c_str()); uint64_t a = u64(t[3]), b = u64(t[4]);
+      std::cout << "BEGIN" << std::endl;
+      if (t[1] == "cpp") {
+        typedef void (*pf)(uint64_t, uint64_t);
+        static pf f[6] = { primesieve::print_primes, primesieve::print_twins, primesieve::print_triplets, primesieve::print_quadruplets, primesieve::print_quintuplets, primesieve::print_sextuplets };
+        try { f[k - 1](a, b); } catch (const std::exception&) { std::cout << "EXC" << std::endl; }
+      } else {
+        typedef void (*pf)(uint64_t, uint64_t);
+        static pf f[6] = { primesieve_print_primes, primesieve_print_twins, primesieve_print_triplets, primesieve_print_quadruplets, primesieve_print_quintuplets, primesieve_print_sextuplets };
+        f[k - 1](a, b);
+      }
+      std::cout.flush(); fflush(stdout);
+      std::cout << "END" << std::endl;
+    }
+    else if (t[0] == "MRCOUNT") {    // MRCOUNT a b: the six counts of [a, b] by Miller-Rabin (oracle)
+      uint64_t a = u64(t[1]), b = u64(t[2]); std::vector<uint64_t> ps;
+      for (uint64_t n = a; ; n++) { if (mr_prime(n)) ps.push_back(n); if (n == b) break; }
+      auto has = [&](uint64_t v) { return v <= b && std::binary_search(ps.begin(), ps.end(), v); };
+      static const std::vector<std::vector<std::vector<int>>> shapes = { {{0}}, {{0,2}}, {{0,2,6},{0,4,6}}, {{0,2,6,8}}, {{0,2,6,8,12},{0,4,6,10,12}}, {{0,4,6,10,12,16}} };
+      for (int k = 0; k < 6; k++) { uint64_t c = 0; for (uint64_t p : ps) for (auto& sh : shapes[k]) { bool ok = true; for (int d : sh) if (p + d < p || !has(p + d)) ok = false; if (ok) c++; } std::cout << (k ? " " : "") << c; }
+      std::cout << std::endl;
     }
     else if (t[0] == "SS") { primesieve::set_sieve_size(atoi(t[1].c_str())); std::cout << "-" << std::endl; }
     else if (t[0] == "NT") { primesieve::set_num_threads(atoi(t[1].c_str())); std::cout << "-" << std::endl; }
